@@ -24,7 +24,7 @@ def _build(root, work, env):
     return binp, ""
 
 def _run(binp, what, env):
-    p = subprocess.run([binp, what, "/repo"], env=env, stdout=subprocess.PIPE, stderr=subprocess.PIPE, text=True)
+    p = subprocess.run([binp, what, os.environ.get("VERIF_REPO", "/repo")], env=env, stdout=subprocess.PIPE, stderr=subprocess.PIPE, text=True)
     if p.returncode != 0:
         return None, p.stderr
     return json.loads(p.stdout), p.stderr
